@@ -352,3 +352,12 @@ impl<E: Effect> Repl<E> {
         &self.last_result_type
     }
 }
+
+#[cfg(feature = "verif")]
+impl<E: Effect> Repl<E> {
+    /// The session's accumulated program: the table in which `get_last_result_type` and the
+    /// variables' type ids are to be read (verification harness).
+    pub fn verif_program(&self) -> &Program {
+        &self.program
+    }
+}
